@@ -263,9 +263,10 @@ def build(thorough, rnd, extras=False):
         cores = plain + rnd.sample(two, min(len(two), 1500 if thorough else 300)) + rnd.sample(one, min(len(one), 500 if thorough else 100))
     variants = [{"kind": k, "style": s} for k in ("function", "method", "class") for s in ("rest", "numpydoc", "google")]
     scs = []
-    reps = 4 if thorough else 1
+    reps = 4 if (thorough and not extras) else 1
     for core in cores:
-        for v in (variants if thorough else rnd.sample(variants, 3)):
+        is_ext = any(x in ("yy", "zz") for x in core["doc"])
+        for v in (variants if (thorough and not is_ext) else rnd.sample(variants, 3)):
             for _ in range(reps):
                 sc = decorate(core, rnd, v)
                 sc["src"] = render(sc)
@@ -364,10 +365,11 @@ def run(prop, propose=False, replay=None):
             for e in o["log"]:
                 evs.append({"proc": pi, "seq": e["seq"], "seed": str(s), "op": e["op"], "input": e["input"], "output": e["output"]})
         chunks = {}
+        nchunks = 64 if thorough else 8      # the memo of one history stays small: TLC rebuilds it at every new key
         for e in evs:
-            chunks.setdefault(int(e["input"], 16) % 8, []).append(e)
+            chunks.setdefault(int(e["input"], 16) % nchunks, []).append(e)
         traces = [{"id": "hist%d" % k, "ev": sorted(v, key=lambda e: (e["proc"], e["seq"]))} for k, v in sorted(chunks.items())]
-        fails, stats = tlc.validate_traces("ProcessTrace.tla", "ProcessTrace.cfg", traces, shards=8)
+        fails, stats = tlc.validate_traces("ProcessTrace.tla", "ProcessTrace.cfg", traces, shards=(16 if thorough else 8))
         src_by = {hashlib.sha256(s["src"].encode()).hexdigest()[:16]: s for s in scs}
         seen = set()
         for tid, fs in fails.items():
